@@ -84,6 +84,13 @@ impl Ctx {
         if self.want_sample {
             self.samples.push(f());
         }
+        if self.describe_only {
+            // describe-only runs happen inside the driver (for cases that crashed or corrupted
+            // their child): leave the case function here, before it touches the library, also in
+            // case functions that do not test the flag themselves. Callers wrap the call in
+            // `guarded` and ignore its result.
+            std::panic::resume_unwind(Box::new("describe-only"));
+        }
     }
     pub fn note(&mut self, key: &str, n: u64) {
         *self.notes.entry(key.to_string()).or_insert(0) += n;
